@@ -57,6 +57,15 @@ MenuS2 == {<<Uwc("t1", "", "any")>>, <<Modify("t1", "")>>, <<Uwc("t1", "", "any"
 MenuS3 == {<<Create("")>>, <<Create(""), Uwc("t1", "", "any")>>}
 ProgramsSame == {[a \in A3 |-> IF a = 1 THEN p1 ELSE IF a = 2 THEN p2 ELSE p3] : p1 \in MenuS1, p2 \in MenuS2, p3 \in MenuS3}
 
+(* C03: three parties adding and removing their own finalizers around each other, after an earlier removal (the finalizer     *)
+(* list then has spare capacity: an implementation that appends in place corrupts a concurrent party's addition); every       *)
+(* successful AddFinalizer must be in force until its owner removes it, and destruction must wait for all of them              *)
+MenuF1 == {<<Create(""), AddFin("a"), AddFin("b"), RemFin("b"), Teardown(""), RemFin("a"), Destroy("")>>,
+           <<Create(""), AddFin("a"), AddFin("b"), RemFin("a"), Tad("")>>}
+MenuF2 == {<<AddFin("x")>>, <<AddFin("x"), RemFin("x")>>}
+MenuF3 == {<<AddFin("y")>>, <<AddFin("y"), RemFin("y")>>, <<AddFin("y"), RemFin("b")>>}
+ProgramsFins == {[a \in A3 |-> IF a = 1 THEN p1 ELSE IF a = 2 THEN p2 ELSE p3] : p1 \in MenuF1, p2 \in MenuF2, p3 \in MenuF3}
+
 (* liveness configuration: the interfering actor ends with the finalizer removed *)
 ProgramsLive == {[a \in {1, 2} |-> IF a = 1 THEN <<Create(""), AddFin("f"), Tad("")>> ELSE p2] :
                    p2 \in {<<RemFin("f")>>, <<AddFin("g"), RemFin("g"), RemFin("f")>>, <<Teardown(""), RemFin("f")>>}}
